@@ -2,6 +2,7 @@ package rules
 
 import (
 	"fmt"
+	"go/constant"
 	"go/token"
 	"go/types"
 	"sort"
@@ -49,14 +50,21 @@ func parserFieldName(v ssa.Value) string {
 	return fieldName(fa.X.Type(), fa.Field)
 }
 
-// isErrCall: a call that records a parse error.
+// isErrCall: a call that records a parse error (a method that assigns the parser's error field).
 func isErrCall(in ssa.Instruction) bool {
 	c, ok := in.(ssa.CallInstruction)
 	if !ok {
 		return false
 	}
 	f := c.Common().StaticCallee()
-	return f != nil && recvName(f) == "Parser" && (f.Name() == "fail" || f.Name() == "failMessage")
+	if f == nil || recvName(f) != "Parser" {
+		return false
+	}
+	m := jsModelOf(in.Parent())
+	if !m.ready {
+		return f.Name() == "fail" || f.Name() == "failMessage"
+	}
+	return m.recorders[f]
 }
 
 // errEdge: does taking successor i of block b establish that the parse is failing?
@@ -65,6 +73,7 @@ func errEdge(b *ssa.BasicBlock, i int) bool {
 	if !ok {
 		return false
 	}
+	m := jsModelOf(b.Parent())
 	cond := iff.Cond
 	truth := i == 0
 	for {
@@ -74,9 +83,12 @@ func errEdge(b *ssa.BasicBlock, i int) bool {
 		}
 		cond, truth = u.X, !truth
 	}
-	// consume(...) == false
+	// a bool from a parser method that is false only after an error was recorded (consume, `(node, ok)` helpers)
+	if m.boolFailure(cond) {
+		return !truth
+	}
 	if c, ok := cond.(*ssa.Call); ok {
-		if f := c.Call.StaticCallee(); f != nil && recvName(f) == "Parser" && f.Name() == "consume" {
+		if f := c.Call.StaticCallee(); f != nil && recvName(f) == "Parser" && f.Name() == "consume" && !m.ready {
 			return !truth
 		}
 		return false
@@ -85,23 +97,23 @@ func errEdge(b *ssa.BasicBlock, i int) bool {
 	if !ok {
 		return false
 	}
+	errField, ttField := m.errField, m.ttField
+	if errField == "" {
+		errField = "err"
+	}
+	if ttField == "" {
+		ttField = "tt"
+	}
 	loadsField := func(v ssa.Value, field string) bool {
 		u, ok := v.(*ssa.UnOp)
 		return ok && u.Op == token.MUL && isParserField(u.X, field)
 	}
 	// p.err != nil
-	if loadsField(bo.X, "err") && isNilConst(bo.Y) {
+	if loadsField(bo.X, errField) && isNilConst(bo.Y) {
 		return (bo.Op == token.NEQ) == truth
 	}
 	// p.tt == ErrorToken (the parse is ending)
-	isTT := func(v ssa.Value) bool {
-		if loadsField(v, "tt") {
-			return true
-		}
-		// a copy `tt := p.tt`
-		return false
-	}
-	if c, ok := bo.Y.(*ssa.Const); ok && c.Value != nil && c.Int64() == 0 && isTT(bo.X) {
+	if c, ok := bo.Y.(*ssa.Const); ok && c.Value != nil && c.Value.Kind() == constant.Int && c.Int64() == 0 && loadsField(bo.X, ttField) {
 		if bo.Op == token.EQL {
 			return truth
 		}
@@ -110,16 +122,27 @@ func errEdge(b *ssa.BasicBlock, i int) bool {
 		}
 	}
 	// depth guards: Limit < level
+	isLevel := func(a string) bool {
+		if m.ready {
+			for f := range m.levels {
+				if hasFieldSuffix(a, f) {
+					return true
+				}
+			}
+			return false
+		}
+		return strings.HasSuffix(a, ".exprLevel") || strings.HasSuffix(a, ".stmtLevel")
+	}
 	x, y := linOf(bo.X), linOf(bo.Y)
 	for a := range y.T {
-		if strings.HasSuffix(a, ".exprLevel") || strings.HasSuffix(a, ".stmtLevel") {
+		if isLevel(a) {
 			if bo.Op == token.LSS || bo.Op == token.LEQ {
 				return truth
 			}
 		}
 	}
 	for a := range x.T {
-		if strings.HasSuffix(a, ".exprLevel") || strings.HasSuffix(a, ".stmtLevel") {
+		if isLevel(a) {
 			if bo.Op == token.GTR || bo.Op == token.GEQ {
 				return truth
 			}
@@ -198,7 +221,15 @@ func clamp(x int8) int8 {
 func runLevel(r *core.Run) {
 	sites := 0
 	for _, fn := range parserFuncs(r) {
-		for fi, field := range []string{"exprLevel", "stmtLevel"} {
+		var levelFields []string
+		for f := range jsModelOf(fn).levels {
+			levelFields = append(levelFields, f)
+		}
+		sort.Strings(levelFields)
+		for fi, field := range levelFields {
+			if fi > 5 {
+				break
+			}
 			incs, decs := 0, 0
 			for _, st := range allStores(fn) {
 				if !isParserField(st.Addr, field) {
@@ -358,8 +389,11 @@ func runCtx(r *core.Run) {
 					continue
 				}
 				f := parserFieldName(u.X)
-				if f == "exprLevel" || f == "stmtLevel" || f == "scope" {
-					continue
+				if jsModelOf(fn).levels[f] {
+					continue // nesting counters are balanced, not restored (R-LEVEL)
+				}
+				if _, isPtr := u.Type().Underlying().(*types.Pointer); isPtr {
+					continue // the current-scope pointer is handled by R-SCOPE
 				}
 				// a save: the loaded value is later written back into some field of the parser
 				// (restoring it into a *different* field is exactly what the rule must notice)
@@ -539,9 +573,18 @@ func runErrTree(r *core.Run) {
 	// who may write Parser.err
 	for _, fn := range allModuleFuncs(r) {
 		for _, st := range allStores(fn) {
-			if isParserField(st.Addr, "err") {
-				ok := recvName(fn) == "Parser" && (fn.Name() == "fail" || fn.Name() == "failMessage")
-				r.Check(ok, fmt.Sprintf("%s writes Parser.err", fnLabel(fn)), st.Pos(), "", "Parser.err is assigned outside fail/failMessage (which also end the token stream)")
+			m := jsModelOf(fn)
+			if m.errField != "" && isParserField(st.Addr, m.errField) && !isNilConst(st.Val) {
+				// whoever records an error must also end the token stream (store ErrorToken into the current-token field)
+				ends := false
+				for _, s2 := range allStores(fn) {
+					if isParserField(s2.Addr, m.ttField) {
+						if c, isC := s2.Val.(*ssa.Const); isC && c.Value != nil && c.Value.Kind() == constant.Int && c.Int64() == 0 {
+							ends = true
+						}
+					}
+				}
+				r.Check(recvName(fn) == "Parser" && ends, fmt.Sprintf("writer of the parser's error field #%d ends the token stream", len(m.recorders)), st.Pos(), "", fmt.Sprintf("%s assigns the parser's error without setting the current token to ErrorToken: parsing would continue after the error and a tree could still be returned", fnLabel(fn)))
 			}
 		}
 	}
@@ -571,7 +614,7 @@ func runErrTree(r *core.Run) {
 			for i, s := range d.Succs {
 				if s == p && len(p.Preds) == 1 && !errEdge(d, i) && errEdge(d, 1-i) {
 					if iff, ok := lastInstr(d).(*ssa.If); ok {
-						if bo, ok := iff.Cond.(*ssa.BinOp); ok && strings.HasSuffix(canon(bo.X), ".err") {
+						if bo, ok := iff.Cond.(*ssa.BinOp); ok && hasFieldSuffix(canon(bo.X), jsModelOf(fn).errField) {
 							guarded = true
 						}
 					}
